@@ -1,0 +1,424 @@
+//! Verification seams, compiled only with the `verif-hooks` cargo feature.
+//!
+//! Nothing here changes behaviour unless a controller is installed on the
+//! current thread:
+//!
+//! * [`OrdMap`] / [`OrdSet`] are drop-in replacements for the `HashMap` /
+//!   `HashSet` used by `datalog::FactSet` and `datalog::RuleSet`. Without a
+//!   controller they iterate in insertion order; with one, every iteration
+//!   yields elements sorted by a ranking of their `Debug` rendering chosen by
+//!   the controller (a model of "another hash seed").
+//! * a virtual clock that `time::Instant::now()` reads when installed.
+//! * a work tick called from the join iterator, which can advance the
+//!   virtual clock.
+use std::cell::RefCell;
+use std::collections::HashMap;
+use std::fmt::Debug;
+use std::time::Duration;
+
+/// How elements unknown to the ranking are ordered
+#[derive(Clone, Debug)]
+pub enum OrderMode {
+    /// explicit ranks; unranked keys come after ranked ones, in insertion order,
+    /// and are recorded in `unranked`
+    Ranked(HashMap<String, i64>),
+    /// order by a keyed 64-bit mix of the rendering (cheap pseudo-random seeds)
+    Seeded(u64),
+    /// reverse insertion order
+    Reversed,
+}
+
+#[derive(Default)]
+struct State {
+    order: Option<OrderMode>,
+    /// every key rendered while a controller was installed
+    seen: Vec<String>,
+    record_seen: bool,
+    clock: Option<Clock>,
+    ticks: u64,
+}
+
+#[derive(Clone, Debug)]
+struct Clock {
+    base: std::time::Instant,
+    /// virtual nanoseconds elapsed
+    now_ns: u64,
+    /// nanoseconds added by each clock read (after the read)
+    per_read_ns: u64,
+    /// nanoseconds added by each work tick
+    per_tick_ns: u64,
+    /// jump: at the k-th read (0-based) add this many ns before answering
+    jump_at_read: Option<(u64, u64)>,
+    reads: u64,
+    /// tick count at which virtual time first reached `deadline_ns`
+    deadline_ns: Option<u64>,
+    ticks_at_deadline: Option<u64>,
+}
+
+thread_local! {
+    static STATE: RefCell<State> = RefCell::new(State::default());
+}
+
+pub fn set_order(mode: Option<OrderMode>) {
+    STATE.with(|s| s.borrow_mut().order = mode);
+}
+
+pub fn record_seen(on: bool) {
+    STATE.with(|s| {
+        let mut s = s.borrow_mut();
+        s.record_seen = on;
+        s.seen.clear();
+    });
+}
+
+pub fn take_seen() -> Vec<String> {
+    STATE.with(|s| std::mem::take(&mut s.borrow_mut().seen))
+}
+
+/// installs a virtual clock starting at 0
+pub fn install_clock(per_read_ns: u64, per_tick_ns: u64, jump_at_read: Option<(u64, u64)>) {
+    STATE.with(|s| {
+        let mut s = s.borrow_mut();
+        s.ticks = 0;
+        s.clock = Some(Clock {
+            base: std::time::Instant::now(),
+            now_ns: 0,
+            per_read_ns,
+            per_tick_ns,
+            jump_at_read,
+            reads: 0,
+            deadline_ns: None,
+            ticks_at_deadline: None,
+        });
+    });
+}
+
+pub fn remove_clock() {
+    STATE.with(|s| s.borrow_mut().clock = None);
+}
+
+/// virtual time after which tick counting for promptness starts
+pub fn set_deadline(ns: u64) {
+    STATE.with(|s| {
+        if let Some(c) = s.borrow_mut().clock.as_mut() {
+            c.deadline_ns = Some(ns);
+            c.ticks_at_deadline = None;
+        }
+    });
+}
+
+/// (reads, virtual ns, ticks, ticks at the moment the deadline passed)
+pub fn clock_stats() -> (u64, u64, u64, Option<u64>) {
+    STATE.with(|s| {
+        let s = s.borrow();
+        match s.clock.as_ref() {
+            Some(c) => (c.reads, c.now_ns, s.ticks, c.ticks_at_deadline),
+            None => (0, 0, s.ticks, None),
+        }
+    })
+}
+
+pub fn reset_ticks() {
+    STATE.with(|s| s.borrow_mut().ticks = 0);
+}
+
+/// called by `time::Instant::now()`
+pub fn clock_now() -> Option<std::time::Instant> {
+    STATE.with(|s| {
+        let mut s = s.borrow_mut();
+        let ticks = s.ticks;
+        let c = s.clock.as_mut()?;
+        if let Some((k, ns)) = c.jump_at_read {
+            if c.reads == k {
+                c.now_ns = c.now_ns.saturating_add(ns);
+            }
+        }
+        let answer = c.base + Duration::from_nanos(c.now_ns);
+        c.reads += 1;
+        c.now_ns = c.now_ns.saturating_add(c.per_read_ns);
+        if let (Some(d), None) = (c.deadline_ns, c.ticks_at_deadline) {
+            if c.now_ns >= d {
+                c.ticks_at_deadline = Some(ticks);
+            }
+        }
+        Some(answer)
+    })
+}
+
+/// called once per candidate fact examined by the join iterator
+#[inline]
+pub fn tick() {
+    STATE.with(|s| {
+        let mut s = s.borrow_mut();
+        s.ticks += 1;
+        let ticks = s.ticks;
+        if let Some(c) = s.clock.as_mut() {
+            c.now_ns = c.now_ns.saturating_add(c.per_tick_ns);
+            if let (Some(d), None) = (c.deadline_ns, c.ticks_at_deadline) {
+                if c.now_ns >= d {
+                    c.ticks_at_deadline = Some(ticks);
+                }
+            }
+        }
+    });
+}
+
+fn mix(seed: u64, s: &str) -> u64 {
+    // FNV-1a then a splitmix finalizer, keyed by seed
+    let mut h: u64 = 0xcbf29ce484222325 ^ seed.wrapping_mul(0x9E3779B97F4A7C15);
+    for b in s.as_bytes() {
+        h ^= *b as u64;
+        h = h.wrapping_mul(0x100000001b3);
+    }
+    h ^= h >> 30;
+    h = h.wrapping_mul(0xbf58476d1ce4e5b9);
+    h ^= h >> 27;
+    h = h.wrapping_mul(0x94d049bb133111eb);
+    h ^ (h >> 31)
+}
+
+/// returns the permutation of `0..n` in which elements must be yielded
+fn order_of<K: Debug>(keys: &[&K]) -> Vec<usize> {
+    let n = keys.len();
+    STATE.with(|s| {
+        let mut s = s.borrow_mut();
+        let mode = match s.order.clone() {
+            None => return (0..n).collect(),
+            Some(m) => m,
+        };
+        if n < 2 && !s.record_seen {
+            return (0..n).collect();
+        }
+        let rendered: Vec<String> = keys.iter().map(|k| format!("{:?}", k)).collect();
+        if s.record_seen {
+            for r in &rendered {
+                if !s.seen.contains(r) {
+                    s.seen.push(r.clone());
+                }
+            }
+        }
+        let mut idx: Vec<usize> = (0..n).collect();
+        match mode {
+            OrderMode::Ranked(ranks) => {
+                idx.sort_by_key(|i| match ranks.get(&rendered[*i]) {
+                    Some(r) => (0, *r, *i),
+                    None => (1, 0, *i),
+                });
+            }
+            OrderMode::Seeded(seed) => {
+                idx.sort_by_key(|i| (mix(seed, &rendered[*i]), *i));
+            }
+            OrderMode::Reversed => idx.reverse(),
+        }
+        idx
+    })
+}
+
+/// insertion-ordered map with controller-chosen iteration order
+#[derive(Clone, Debug)]
+pub struct OrdMap<K, V> {
+    entries: Vec<(K, V)>,
+}
+
+impl<K, V> Default for OrdMap<K, V> {
+    fn default() -> Self {
+        OrdMap { entries: Vec::new() }
+    }
+}
+
+pub struct OrdEntry<'a, K, V> {
+    map: &'a mut OrdMap<K, V>,
+    key: K,
+}
+
+impl<'a, K: Eq + Debug, V: Default> OrdEntry<'a, K, V> {
+    pub fn or_default(self) -> &'a mut V {
+        let pos = self.map.entries.iter().position(|(k, _)| *k == self.key);
+        match pos {
+            Some(p) => &mut self.map.entries[p].1,
+            None => {
+                self.map.entries.push((self.key, V::default()));
+                &mut self.map.entries.last_mut().unwrap().1
+            }
+        }
+    }
+}
+
+impl<K: Eq + Debug, V> OrdMap<K, V> {
+    pub fn new() -> Self {
+        Self::default()
+    }
+
+    pub fn get_mut(&mut self, key: &K) -> Option<&mut V> {
+        self.entries
+            .iter_mut()
+            .find(|(k, _)| k == key)
+            .map(|(_, v)| v)
+    }
+
+    pub fn get(&self, key: &K) -> Option<&V> {
+        self.entries.iter().find(|(k, _)| k == key).map(|(_, v)| v)
+    }
+
+    pub fn insert<W: Into<V>>(&mut self, key: K, value: W) -> Option<V> {
+        let value = value.into();
+        match self.entries.iter_mut().find(|(k, _)| *k == key) {
+            Some(e) => Some(std::mem::replace(&mut e.1, value)),
+            None => {
+                self.entries.push((key, value));
+                None
+            }
+        }
+    }
+
+    pub fn entry(&mut self, key: K) -> OrdEntry<'_, K, V> {
+        OrdEntry { map: self, key }
+    }
+
+    pub fn len(&self) -> usize {
+        self.entries.len()
+    }
+
+    pub fn is_empty(&self) -> bool {
+        self.entries.is_empty()
+    }
+
+    fn perm(&self) -> Vec<usize> {
+        let keys: Vec<&K> = self.entries.iter().map(|(k, _)| k).collect();
+        order_of(&keys)
+    }
+
+    pub fn iter(&self) -> std::vec::IntoIter<(&K, &V)> {
+        let perm = self.perm();
+        perm.into_iter()
+            .map(|i| (&self.entries[i].0, &self.entries[i].1))
+            .collect::<Vec<_>>()
+            .into_iter()
+    }
+
+    pub fn values(&self) -> std::vec::IntoIter<&V> {
+        let perm = self.perm();
+        perm.into_iter()
+            .map(|i| &self.entries[i].1)
+            .collect::<Vec<_>>()
+            .into_iter()
+    }
+
+    pub fn keys(&self) -> std::vec::IntoIter<&K> {
+        let perm = self.perm();
+        perm.into_iter()
+            .map(|i| &self.entries[i].0)
+            .collect::<Vec<_>>()
+            .into_iter()
+    }
+}
+
+impl<K: Eq + Debug, V> IntoIterator for OrdMap<K, V> {
+    type Item = (K, V);
+    type IntoIter = std::vec::IntoIter<(K, V)>;
+    fn into_iter(self) -> Self::IntoIter {
+        let perm = self.perm();
+        let mut slots: Vec<Option<(K, V)>> = self.entries.into_iter().map(Some).collect();
+        perm.into_iter()
+            .map(|i| slots[i].take().unwrap())
+            .collect::<Vec<_>>()
+            .into_iter()
+    }
+}
+
+impl<'a, K: Eq + Debug, V> IntoIterator for &'a OrdMap<K, V> {
+    type Item = (&'a K, &'a V);
+    type IntoIter = std::vec::IntoIter<(&'a K, &'a V)>;
+    fn into_iter(self) -> Self::IntoIter {
+        self.iter()
+    }
+}
+
+/// insertion-ordered set with controller-chosen iteration order
+#[derive(Clone, Debug)]
+pub struct OrdSet<T> {
+    items: Vec<T>,
+}
+
+impl<T> Default for OrdSet<T> {
+    fn default() -> Self {
+        OrdSet { items: Vec::new() }
+    }
+}
+
+impl<T: Eq + Debug> OrdSet<T> {
+    pub fn new() -> Self {
+        Self::default()
+    }
+
+    pub fn insert(&mut self, item: T) -> bool {
+        if self.items.contains(&item) {
+            false
+        } else {
+            self.items.push(item);
+            true
+        }
+    }
+
+    pub fn contains(&self, item: &T) -> bool {
+        self.items.contains(item)
+    }
+
+    pub fn len(&self) -> usize {
+        self.items.len()
+    }
+
+    pub fn is_empty(&self) -> bool {
+        self.items.is_empty()
+    }
+
+    fn perm(&self) -> Vec<usize> {
+        let keys: Vec<&T> = self.items.iter().collect();
+        order_of(&keys)
+    }
+
+    pub fn iter(&self) -> std::vec::IntoIter<&T> {
+        let perm = self.perm();
+        perm.into_iter()
+            .map(|i| &self.items[i])
+            .collect::<Vec<_>>()
+            .into_iter()
+    }
+
+    pub fn extend<I: IntoIterator<Item = T>>(&mut self, iter: I) {
+        for item in iter {
+            self.insert(item);
+        }
+    }
+}
+
+impl<T: Eq + Debug> From<std::collections::HashSet<T>> for OrdSet<T> {
+    fn from(set: std::collections::HashSet<T>) -> Self {
+        let mut s = OrdSet::new();
+        for item in set {
+            s.insert(item);
+        }
+        s
+    }
+}
+
+impl<T: Eq + Debug> IntoIterator for OrdSet<T> {
+    type Item = T;
+    type IntoIter = std::vec::IntoIter<T>;
+    fn into_iter(self) -> Self::IntoIter {
+        let perm = self.perm();
+        let mut slots: Vec<Option<T>> = self.items.into_iter().map(Some).collect();
+        perm.into_iter()
+            .map(|i| slots[i].take().unwrap())
+            .collect::<Vec<_>>()
+            .into_iter()
+    }
+}
+
+impl<'a, T: Eq + Debug> IntoIterator for &'a OrdSet<T> {
+    type Item = &'a T;
+    type IntoIter = std::vec::IntoIter<&'a T>;
+    fn into_iter(self) -> Self::IntoIter {
+        self.iter()
+    }
+}
